@@ -284,6 +284,23 @@ def PolyObj.containsPoint (q : PolyObj) (p : CR.Geom.Pt) : Bool := CR.Geom.inBBo
 def PolyObj.setVertices (q : PolyObj) (vs : List CR.Geom.Pt) : PolyObj := { q with vs := vs }
 def PolyObj.setVerticesR (_q : PolyObj) (vs : List CR.Geom.Pt) : PolyObj := ⟨vs, vs⟩
 
+/-! ### which parts the `translate_rotate` methods move (goal.py:126-134, planning_problem.py:96-105, 187-195)
+
+  Read off the source as a table (moved part, arguments, enclosing loop, where the result is stored; loop variables named v0, v1, …
+  in order of appearance) and compared with these tables on every run (CRProps/T08, `decide`: a finite table checked completely).
+  `GState.translate` / `isReachedMoved` above are what the first table denotes for angle 0: EVERY goal state `i` of the list is
+  replaced by its own moved copy, with the caller's translation and angle. -/
+abbrev MoveRow := String × String × String × String
+def goalRegionMoves : List MoveRow := [("v1", "translation, angle", "enumerate(self.state_list)", "self.state_list[v0]")]
+def goalRegionMoveStmts : String := "For Assign"
+/-- the planning problem moves its initial state (stored back) and its goal region (in place), nothing else. -/
+def planningProblemMoves : List MoveRow :=
+  [("self.initial_state", "translation, angle", "", "self.initial_state"), ("self.goal", "translation, angle", "", "")]
+def planningProblemMoveStmts : String := "Assign Expr"
+/-- the set moves every planning problem of its dictionary. -/
+def planningProblemSetMoves : List MoveRow := [("v0", "translation, angle", "self._planning_problem_dict.values()", "")]
+def planningProblemSetMoveStmts : String := "For Expr"
+
 /-- `PlanningProblem.goal_reached`: scan the per-state answers from the last to the first. -/
 def goalReachedRev : List (Nat × Res Bool) → Res (Bool × Int)
   | [] => .ok (false, -1)
